@@ -140,12 +140,21 @@ func Subset(spec, live any) (bool, string) {
 		return true, ""
 	case []any:
 		l, ok := live.([]any)
-		if !ok || len(l) != len(s) {
-			return false, fmt.Sprintf(" list differs (want %v, live %v)", spec, live)
+		if !ok {
+			return false, fmt.Sprintf(" expected a list, live has %T", live)
 		}
+		// every specified element must be matched by some live element (the
+		// server may merge lists by key, so order and extra elements are free)
 		for i := range s {
-			if ok2, why := Subset(s[i], l[i]); !ok2 {
-				return false, fmt.Sprintf("[%d]%s", i, why)
+			found := false
+			for j := range l {
+				if ok2, _ := Subset(s[i], l[j]); ok2 {
+					found = true
+					break
+				}
+			}
+			if !found {
+				return false, fmt.Sprintf("[%d] = %v not found in live list %v", i, s[i], l)
 			}
 		}
 		return true, ""
